@@ -1,6 +1,7 @@
 import RedisVerif.Driver.Codec
 import RedisVerif.Model.GrammarTable
 import RedisVerif.Model.LuaConv
+import RedisVerif.Props.C16
 
 /-
   C16 sub-driver (pure).  One line in, one line out:
@@ -12,7 +13,9 @@ import RedisVerif.Model.LuaConv
     F  <hex>          → `str::parse::<f64>`: f<16 hex digits> | fnan | none
     R2L <resp>        → `resp_to_lua_value`, rendered as a Lua value
     L2R <lua>         → `lua_to_resp`, rendered as a RESP value
-    RT <resp>         → `lua_to_resp (resp_to_lua_value r)` and whether `r` is ConvStable
+    RT <resp>         → `lua_to_resp (resp_to_lua_value r)`
+    LT <i>            → row i of the translator's error alphabet `C16.luaErrTable` (name, arity text,
+                        error literals, prefixes of formatted errors) | end
   RESP values (prefix notation):  +<hex>  -<hex>  :<int>  $<hex>  $-  *-  *<n> v1 … vn
   Lua values:                     nil true false i<int> n<int> s<hex> ok<hex> err<hex> t<n> v1 … vn
 -/
@@ -150,6 +153,13 @@ def step (line : String) : String :=
   | "RT" :: ts => match (respP (ts.length + 1)).run ts with
     | some (r, []) => showResp (luaToResp (respToLua r))
     | _ => "bad-op"
+  | ["LT", i] => match i.toNat? with
+    | some n => match RedisVerif.C16.luaErrTable[n]? with
+      | some r =>
+        let j (l : List (List Nat)) : String := ";".intercalate (l.map hexOfBytes)
+        s!"name={hexOfBytes r.name} arity={hexOfBytes r.arity} lits={j (r.lits.map Lit.text)} fmts={j (r.fmts.map Fmt.pre)}"
+      | none => "end"
+    | none => "bad-op"
   | _ => "bad-op"
 
 end RedisVerif.Driver.C16
